@@ -297,6 +297,131 @@ Definition judge_c15 (io : list Z) : list Z :=
   | _ => [0; 99]
   end.
 
+(* ---------------------------------------------------------------------------------------- *)
+(* stream c15multi: several tables alive at once, results of probes read late (format: see
+   Model/TT.v). The property speaks about one table: the run is projected on every table slot -
+   its own ops in the c15 encoding (New = a resize followed by a clear of a table that holds
+   nothing), its own answers (a held probe is a probe whose answer arrives later; nothing is
+   stored in between) - and every projection is judged against its own abstract map. *)
+
+Fixpoint nth_alive (alive : list bool) (i : nat) : bool :=
+  match alive, i with
+  | [], _ => false
+  | b :: _, O => b
+  | _ :: r, S j => nth_alive r j
+  end.
+
+Fixpoint set_alive (alive : list bool) (i : nat) : list bool :=
+  match alive, i with
+  | [], _ => []
+  | _ :: r, O => true :: r
+  | b :: r, S j => b :: set_alive r j
+  end.
+
+Definition slot_in (alive : list bool) (tb : Z) : bool := (0 <=? tb) && (tb <? Z.of_nat (length alive)).
+Definition is_alive (alive : list bool) (tb : Z) : bool := slot_in alive tb && nth_alive alive (Z.to_nat tb).
+
+Fixpoint take_drop (n : nat) (l : list Z) : option (list Z * list Z) :=
+  match n with
+  | O => Some ([], l)
+  | S n' => match l with
+            | [] => None
+            | x :: l' => match take_drop n' l' with Some (a, b) => Some (x :: a, b) | None => None end
+            end
+  end.
+
+(* the answers of the held probes (in the order of the calls): those of slot t become probes *)
+Fixpoint flush_proj (t : Z) (held : list (Z * list Z)) (out : list Z) : option (list Z * list Z * list Z) :=
+  match held with
+  | [] => Some ([], [], out)
+  | (tb, op) :: held' =>
+      match take_drop 5 out with
+      | None => None
+      | Some (mine, out1) =>
+          match flush_proj t held' out1 with
+          | None => None
+          | Some (fo, fout, out2) =>
+              if tb =? t then Some (op ++ fo, mine ++ fout, out2) else Some (fo, fout, out2)
+          end
+      end
+  end.
+
+(* held is kept newest first *)
+Fixpoint project (t : Z) (np5 : nat) (alive : list bool) (held : list (Z * list Z)) (ops out : list Z)
+         {struct ops} : option (list Z * list Z) :=
+  match ops with
+  | k :: tb :: h :: g :: d :: p :: m :: v :: ty :: rest =>
+      let live := is_alive alive tb in
+      if k =? 6 then
+        project t np5 alive (if live then (tb, [1; h; g; d; p; m; v; ty]) :: held else held) rest out
+      else
+        match flush_proj t (rev held) out with
+        | None => None
+        | Some (fo, fout, out1) =>
+            let creates := (k =? 5) && slot_in alive tb in
+            let n_out := if creates then np5
+                         else if negb live then O
+                         else if (k =? 0) || (k =? 2) || (k =? 3) || (k =? 4) then np5
+                         else if k =? 1 then 5%nat else O in
+            let judged_op := creates || (live && (0 <=? k) && (k <=? 4)) in
+            match take_drop n_out out1 with
+            | None => None
+            | Some (mine, out2) =>
+                match project t np5 (if creates then set_alive alive (Z.to_nat tb) else alive) [] rest out2 with
+                | None => None
+                | Some (ro, rout) =>
+                    if (tb =? t) && judged_op
+                    then Some (fo ++ (if k =? 5 then 3 else k) :: h :: g :: d :: p :: m :: v :: ty :: ro,
+                               fout ++ mine ++ rout)
+                    else Some (fo ++ ro, fout ++ rout)
+                end
+            end
+        end
+  | _ =>
+      match flush_proj t (rev held) out with
+      | Some (fo, fout, []) => Some (fo, fout)
+      | _ => None
+      end
+  end.
+
+Fixpoint bad_size_in9 (ops : list Z) {struct ops} : bool :=
+  match ops with
+  | k :: tb :: h :: g :: d :: p :: m :: v :: ty :: rest =>
+      (((k =? 3) || (k =? 4) || (k =? 5)) && negb (size_ok h && nb_ok (h / bucketSize))) || bad_size_in9 rest
+  | _ => false
+  end.
+
+Fixpoint judge_slots (n : nat) (t : Z) (pool : list Z) (ops out : list Z) (alive0 : list bool) : list Z :=
+  match n with
+  | O => [1]
+  | S n' =>
+      match project t (5 * length pool) alive0 [] ops out with
+      | None => [0; 99]
+      | Some (ops_t, out_t) =>
+          match judge_ops pool 1 (map (key_of 1) pool) true [] ops_t out_t with
+          | [1] => judge_slots n' (t + 1) pool ops out alive0
+          | verdict => verdict
+          end
+      end
+  end.
+
+Definition judge_c15multi (io : list Z) : list Z :=
+  match io with
+  | ntab :: np :: rest =>
+      let pool := firstn (Z.to_nat np) rest in
+      match skipn (Z.to_nat np) rest with
+      | nops :: rest2 =>
+          let n9 := Z.to_nat (9 * nops) in
+          let ops := firstn n9 rest2 in
+          let out := skipn n9 rest2 in
+          let nt := Z.to_nat (Z.min 8 ntab) in
+          if negb (pool_ok pool && (0 <=? np)) || bad_size_in9 ops then [1]
+          else judge_slots nt 0 pool ops out (repeat false nt)
+      | [] => [0; 99]
+      end
+  | _ => [0; 99]
+  end.
+
 (* stream c15big: the same run preceded by the GOMAXPROCS setting of the harness, which the
    property does not depend on *)
 Definition judge_c15big (io : list Z) : list Z :=
